@@ -324,7 +324,9 @@ class AppProgram:
         self.rec = None
 
     def body_chunks(self):
-        return [bytes.fromhex(c) for c in self.spec.get("chunks", [])]
+        # a chunk is hex text, or {"rep": [byte, n]} = n times the same byte (keeps a spec small enough for a header)
+        return [bytes([c["rep"][0]]) * c["rep"][1] if isinstance(c, dict) else bytes.fromhex(c)
+                for c in self.spec.get("chunks", [])]
 
     def __call__(self, environ, start_response):
         spec = self.spec
